@@ -221,7 +221,8 @@ def operator_fresh(P, R):
     bid, opv = sw
     # element boundary: the store that takes the next element (sev_str = sep ...) - any assignment in a loop condition
     elem = [s for s in p.stores() if s.ev['k'] == 'store' and s.ev.get('op') == '=' and is_var(s.ev.get('lhs')) and is_var(s.ev.get('rhs')) and s.bid in p.reach([e.dst for e in p.out[s.bid]])
-            and s.ev['lhs'].get('t', '') == 'char *' and p.dominates(s.bid, bid)]
+            and s.ev['lhs'].get('t', '') == 'char *' and p.dominates(s.bid, bid)
+            and any((d.ev.get('rhs') or d.ev.get('init') or {}).get('callee') in ('strchr', 'strpbrk', 'strtok', 'strsep') for d in p.local_defs(s.ev['rhs']['name']))]
 
     def on_event(st, s):
         if any(s.key == e.key for e in elem):
